@@ -252,6 +252,8 @@ func (r *coreRun) set(l *slog.Entry, k string, a, b int) *slog.Entry {
 		return l
 	case "CtxKeys":
 		return l.SetContextKeys(mkCtxKey(a))
+	case "CtxReset":
+		return l.ResetContextKeys()
 	case "Writer":
 		return l.SetWriter(getWriter(a))
 	case "AddWriter":
@@ -474,6 +476,16 @@ func (r *coreRun) observe(rec map[string]any) {
 				subs = append(subs, map[string]any{"name": nm, "got": r.idOf(l.Sublogger(nm))})
 			}
 			o["sub"] = subs
+			// DumpSubloggers: "  "*depth + "- name" per logger
+			depths := []int{}
+			for _, ln := range strings.Split(strings.TrimRight(l.DumpSubloggers(), "\n"), "\n") {
+				ind := 0
+				for ind < len(ln) && ln[ind] == ' ' {
+					ind++
+				}
+				depths = append(depths, ind/2)
+			}
+			o["dump"] = depths
 		}
 		if r.obs["shape"] || r.obs["dest"] {
 			dests := []map[string]any{}
@@ -508,6 +520,29 @@ func (r *coreRun) observe(rec map[string]any) {
 			}
 			if r.obs["dest"] {
 				o["dest"] = dests
+				// the writer lists themselves, as GetWriterBy / GetWriter hand them out
+				getw := []map[string]any{}
+				for _, sev := range r.sc.ProbeSevs {
+					takeAll()
+					if w := l.GetWriterBy(slog.Level(sev)); w != nil {
+						_, _ = w.Write([]byte("direct write\n"))
+					}
+					evs := takeAll()
+					if evs == nil {
+						evs = []wev{}
+					}
+					getw = append(getw, map[string]any{"r": sev, "evs": evs})
+				}
+				o["getw"] = getw
+				takeAll()
+				if w := l.GetWriter(); w != nil {
+					_, _ = w.Write([]byte("direct write\n"))
+				}
+				evs0 := takeAll()
+				if evs0 == nil {
+					evs0 = []wev{}
+				}
+				o["getw0"] = evs0
 			}
 		}
 		if r.obs["attrs"] {
